@@ -91,6 +91,9 @@ def save_xye(
     to_save = np.c_[da.coords[coord].values, da.values, np.sqrt(da.variances)]
     if header is GenerateHeader:
         header = _generate_xye_header(da, coord)
+    # A carriage return ends a line when the file is read back, but only
+    # newlines get the comment prefix from savetxt.
+    header = header.replace('\r\n', '\n').replace('\r', '\n')
 
     get_logger().info(
         "Saving data with unit %s and coordinate '%s' to XYE file %s",
